@@ -74,6 +74,7 @@ class Path:
         self.taken = []
         self.pc = []
         self.ax = list(PI_AXIOMS)
+        self.ax_tags = [None] * len(PI_AXIOMS)     # None: always relevant; else the symbols the axiom defines
         self.events = []
         self.n_fresh = 0
         self.atoms = {}      # key(sexpr) -> (arg expr, c, s)
@@ -91,6 +92,7 @@ class Path:
         self.exps = []
         self.logs = []
         self.sqrts = []
+        self.opaques = {}     # name -> list of (args tuple, result const)
         self.rng_limit = None
 
     # ------------------------------------------------------------------ fresh
@@ -105,8 +107,12 @@ class Path:
             return z3.Bool(name)
         raise ValueError(sort)
 
-    def axiom(self, fact):
+    def _axd(self, defines, fact):
+        self.axiom(fact, defines)
+
+    def axiom(self, fact, defines=None):
         self.ax.append(fact)
+        self.ax_tags.append(None if defines is None else frozenset(str(d) for d in defines))
 
     def assume(self, cond):
         if isinstance(cond, SBool):
@@ -172,7 +178,7 @@ class Path:
             c = self.fresh('cos')
             s = self.fresh('sin')
             self.atoms[key] = (arg, c, s)
-            self.ax.append(c * c + s * s == 1)
+            self._axd((c, s), c * c + s * s == 1)
             self.defs[str(c)] = ('cos', arg)
             self.defs[str(s)] = ('sin', arg)
         _, c, s = self.atoms[key]
@@ -244,7 +250,9 @@ class Path:
             self.cache[key] = make()
         return self.cache[key]
 
-    def sqrt(self, a):
+    def sqrt(self, a, known_nonneg=False):
+        """known_nonneg: the caller guarantees a >= 0 structurally (a sum of squares), so the
+        defining axiom is stated unconditionally"""
         a = z3.simplify(a)
         v = _numeral(a)
         if v is not None and v >= 0:
@@ -255,7 +263,10 @@ class Path:
 
         def make():
             s = self.fresh('sqrt')
-            self.ax.append(z3.Implies(a >= 0, z3.And(s >= 0, s * s == a)))
+            if known_nonneg:
+                self._axd((s,), z3.And(s >= 0, s * s == a))
+            else:
+                self._axd((s,), z3.Implies(a >= 0, z3.And(s >= 0, s * s == a)))
             self.defs[str(s)] = ('sqrt', a)
             self.sqrts.append((a, s))
             return s
@@ -266,8 +277,8 @@ class Path:
 
         def make():
             s = self.fresh('cbrt')
-            self.ax.append(s * s * s == a)
-            self.ax.append(z3.Implies(a >= 0, s >= 0))
+            self._axd((s,), s * s * s == a)
+            self._axd((s,), z3.Implies(a >= 0, s >= 0))
             self.defs[str(s)] = ('cbrt', a)
             return s
         return self.cached('cbrt', [a], make)
@@ -280,18 +291,18 @@ class Path:
             t = self.fresh('atan2')
             rho = self.sqrt(x * x + y * y)
             c, s = self.trig_atom(t)
-            self.ax.append(z3.And(t > -PI, t <= PI))
-            self.ax.append(rho * c == x)
-            self.ax.append(rho * s == y)
-            self.ax.append(z3.Implies(z3.And(x == 0, y == 0), t == 0))
+            self._axd((t, c, s), z3.And(t > -PI, t <= PI))
+            self._axd((t, c, s), rho * c == x)
+            self._axd((t, c, s), rho * s == y)
+            self._axd((t, c, s), z3.Implies(z3.And(x == 0, y == 0), t == 0))
             # sign facts (consequences of the above, help the solver)
-            self.ax.append(z3.Implies(y > 0, z3.And(t > 0, t < PI)))
-            self.ax.append(z3.Implies(y < 0, z3.And(t < 0)))
-            self.ax.append(z3.Implies(z3.And(y == 0, x > 0), t == 0))
-            self.ax.append(z3.Implies(z3.And(y == 0, x < 0), t == PI))
-            self.ax.append(z3.Implies(z3.And(x > 0), z3.And(t > -PI / 2, t < PI / 2)))
-            self.ax.append(z3.Implies(z3.And(x == 0, y > 0), t == PI / 2))
-            self.ax.append(z3.Implies(z3.And(x == 0, y < 0), t == -PI / 2))
+            self._axd((t, c, s), z3.Implies(y > 0, z3.And(t > 0, t < PI)))
+            self._axd((t, c, s), z3.Implies(y < 0, z3.And(t < 0)))
+            self._axd((t, c, s), z3.Implies(z3.And(y == 0, x > 0), t == 0))
+            self._axd((t, c, s), z3.Implies(z3.And(y == 0, x < 0), t == PI))
+            self._axd((t, c, s), z3.Implies(z3.And(x > 0), z3.And(t > -PI / 2, t < PI / 2)))
+            self._axd((t, c, s), z3.Implies(z3.And(x == 0, y > 0), t == PI / 2))
+            self._axd((t, c, s), z3.Implies(z3.And(x == 0, y < 0), t == -PI / 2))
             self.defs[str(t)] = ('atan2', y, x)
             return t
         return self.cached('atan2', [y, x], make)
@@ -302,7 +313,7 @@ class Path:
         def make():
             t = self.fresh('acos')
             c, s = self.trig_atom(t)
-            self.ax.append(z3.Implies(z3.And(x >= -1, x <= 1),
+            self._axd((t, c, s), z3.Implies(z3.And(x >= -1, x <= 1),
                                       z3.And(t >= 0, t <= PI, c == x, s >= 0)))
             self.defs[str(t)] = ('acos', x)
             return t
@@ -314,7 +325,7 @@ class Path:
         def make():
             t = self.fresh('asin')
             c, s = self.trig_atom(t)
-            self.ax.append(z3.Implies(z3.And(x >= -1, x <= 1),
+            self._axd((t, c, s), z3.Implies(z3.And(x >= -1, x <= 1),
                                       z3.And(t >= -PI / 2, t <= PI / 2, s == x, c >= 0)))
             self.defs[str(t)] = ('asin', x)
             return t
@@ -327,7 +338,7 @@ class Path:
 
         def make():
             k = self.fresh('floor', 'int')
-            self.ax.append(z3.And(z3.ToReal(k) <= x, x < z3.ToReal(k) + 1))
+            self._axd((k,), z3.And(z3.ToReal(k) <= x, x < z3.ToReal(k) + 1))
             self.defs[str(k)] = ('floor', x)
             return k
         return self.cached('floor', [x], make)
@@ -341,8 +352,8 @@ class Path:
         def make():
             k = self.fresh('rint', 'int')
             kr = z3.ToReal(k)
-            self.ax.append(z3.And(kr - x <= z3.RealVal('1/2'), x - kr <= z3.RealVal('1/2')))
-            self.ax.append(z3.Implies(z3.Or(x - kr == z3.RealVal('1/2'), kr - x == z3.RealVal('1/2')),
+            self._axd((k,), z3.And(kr - x <= z3.RealVal('1/2'), x - kr <= z3.RealVal('1/2')))
+            self._axd((k,), z3.Implies(z3.Or(x - kr == z3.RealVal('1/2'), kr - x == z3.RealVal('1/2')),
                                       k % 2 == 0))
             self.defs[str(k)] = ('rint', x)
             return k
@@ -356,8 +367,8 @@ class Path:
         def make():
             k = self.fresh('fdiv', 'int')
             r = x - z3.ToReal(k) * m
-            self.ax.append(z3.Implies(m > 0, z3.And(r >= 0, r < m)))
-            self.ax.append(z3.Implies(m < 0, z3.And(r <= 0, r > m)))
+            self._axd((k,), z3.Implies(m > 0, z3.And(r >= 0, r < m)))
+            self._axd((k,), z3.Implies(m < 0, z3.And(r <= 0, r > m)))
             self.defs[str(k)] = ('fdiv', x, m)
             return k
         k = self.cached('fdiv', [x, m], make)
@@ -372,7 +383,7 @@ class Path:
 
         def make():
             e = self.fresh('exp')
-            self.ax.append(e > 0)
+            self._axd((e,), e > 0)
             self.exps.append((a, e))
             self.defs[str(e)] = ('exp', a)
             return e
@@ -391,6 +402,19 @@ class Path:
             self.defs[str(l)] = ('log', a)
             return l
         return self.cached('log', [a], make)
+
+    def opaque(self, name, args, sort='real'):
+        """value of an uninterpreted (deterministic) function `name` at `args` (z3 terms): one
+        constant per syntactically distinct argument tuple; congruence is supplied as conditional
+        instances by lemma_instances (the VCs stay free of uninterpreted functions)"""
+        args = tuple(z3.simplify(a) for a in args)
+        key = ('opaque', name) + tuple(a.get_id() for a in args)
+        if key not in self.cache:
+            self.keep.extend(args)
+            r = self.fresh(name, sort)
+            self.cache[key] = r
+            self.opaques.setdefault(name, []).append((args, r))
+        return self.cache[key]
 
     # ------------------------------------------------------- lemma saturation
     def lemma_instances(self, limit=4000):
@@ -444,6 +468,13 @@ class Path:
                         continue
                     out.append(z3.Implies(z3.And(a > 0, b > 0, a * b == cc), l + m == n))
                     out.append(z3.Implies(z3.And(a > 0, b > 0, a == b * cc), l == m + n))
+        for name, calls in self.opaques.items():
+            if len(calls) > 60:
+                continue
+            for i, (a, r) in enumerate(calls):
+                for (b, q) in calls[i + 1:]:
+                    if len(a) == len(b) and not all(z3.eq(u, v) for u, v in zip(a, b)):
+                        out.append(z3.Implies(z3.And(*[u == v for u, v in zip(a, b)]), r == q))
         if len(self.sqrts) <= 40:
             for i, (a, r) in enumerate(self.sqrts):
                 for (b, q) in self.sqrts[i + 1:]:
@@ -467,7 +498,31 @@ class Path:
                         if k == i or k == j:
                             continue
                         out.append(z3.Implies(a + b == d, z3.And(c3 == c * c2 - s_ * s2, s3 == s_ * c2 + c * s2)))
-        return out[:limit]
+        tagged = []
+        for f in out[:limit]:
+            concl = f.arg(1) if z3.is_implies(f) else f
+            tagged.append((frozenset(n for n in const_names(concl) if '!' in n), f))
+        return tagged
+
+
+_CONST_CACHE = {}
+
+
+def const_names(t):
+    """names of the uninterpreted constants occurring in a z3 term"""
+    k = t.get_id()
+    r = _CONST_CACHE.get(k)
+    if r is not None and r[0].eq(t):
+        return r[1]
+    if z3.is_const(t):
+        res = frozenset([t.decl().name()]) if t.decl().kind() == z3.Z3_OP_UNINTERPRETED else frozenset()
+    else:
+        acc = set()
+        for ch in t.children():
+            acc |= const_names(ch)
+        res = frozenset(acc)
+    _CONST_CACHE[k] = (t, res)
+    return res
 
 
 # ---------------------------------------------------------------------------
@@ -1166,7 +1221,7 @@ class SCplx(numbers.Number):
         return self
 
     def __abs__(self):
-        return SNum(cur().sqrt(self.re * self.re + self.im * self.im))
+        return SNum(cur().sqrt(self.re * self.re + self.im * self.im, known_nonneg=True))
 
     def __pow__(self, k):
         if isinstance(k, SNum):
